@@ -41,6 +41,7 @@ struct rec
     int sto_dev; unsigned sto_run;
     uint64_t frame_id, hw_id; uint32_t w, h; int type; size_t bytes_of_frame;
     int payload_ok;       // pixel bytes == mock_pixel(cam dev, cam run, hw_id, i)  (non-averaged)
+    int partial;          // averaged frame of a window cut short: it holds fewer inputs than the camera had delivered for it
     float f32[8]; int nf32;
     uint64_t sumcheck;
 };
@@ -69,35 +70,40 @@ void mock_record_frame(int sto_dev, unsigned sto_run, const struct VideoFrame* f
         for (int i = 0; i < r->nf32; ++i) r->f32[i] = x[i];
         // exact check of every pixel against the mean of the window's inputs
         int k = g_avg_of_sto[sto_dev];
-        int ok = 1;
         // input type and per-pixel size are those of the camera's frames
         extern int g_cam_type[MOCK_NDEV];
         int t = g_cam_type[cam];
         size_t bpp = bytes_of_type((enum SampleType)t);
-        for (size_t i = 0; i < n && ok; ++i) {
-            float acc = 0.0f; double exact = 0.0;
-            int cnt = 0;
-            for (int j = 0; j < k; ++j) {
-                uint64_t fr = f->frame_id + (uint64_t)j;
-                if (fr >= mock_dev(cam)->delivered) break; // trailing incomplete window
-                unsigned char b0 = mock_pixel(cam, g_camrun_of_sto[sto_dev], fr, i * bpp);
-                unsigned char b1 = bpp > 1 ? mock_pixel(cam, g_camrun_of_sto[sto_dev], fr, i * bpp + 1) : 0;
-                double v;
-                switch (t) {
-                    case SampleType_u8: v = b0; break;
-                    case SampleType_i8: v = (int8_t)b0; break;
-                    case SampleType_i16: v = (int16_t)(b0 | (b1 << 8)); break;
-                    default: v = (uint16_t)(b0 | (b1 << 8)); break;
+        // a complete window is the float mean of its k inputs. A window cut short (abort, a device failure: frames the camera
+        // delivered last may have been refused by the queue) is the mean or the plain sum of its first `cnt` inputs, 1 <= cnt < k;
+        // check_acquisition() allows such a record only as the last one of a run that did not end normally
+        int avail = 0;
+        for (int j = 0; j < k; ++j)
+            if (f->frame_id + (uint64_t)j < mock_dev(cam)->delivered) ++avail;
+        int ok = 0, partial = 0;
+        for (int cnt = avail; cnt >= 1 && !ok; --cnt) {
+            int good = 1;
+            for (size_t i = 0; i < n && good; ++i) {
+                float acc = 0.0f;
+                for (int j = 0; j < cnt; ++j) {
+                    uint64_t fr = f->frame_id + (uint64_t)j;
+                    unsigned char b0 = mock_pixel(cam, g_camrun_of_sto[sto_dev], fr, i * bpp);
+                    unsigned char b1 = bpp > 1 ? mock_pixel(cam, g_camrun_of_sto[sto_dev], fr, i * bpp + 1) : 0;
+                    double v;
+                    switch (t) {
+                        case SampleType_u8: v = b0; break;
+                        case SampleType_i8: v = (int8_t)b0; break;
+                        case SampleType_i16: v = (int16_t)(b0 | (b1 << 8)); break;
+                        default: v = (uint16_t)(b0 | (b1 << 8)); break;
+                    }
+                    acc += (float)v;
                 }
-                acc += (float)v; exact += v; ++cnt;
+                float m1 = acc * (1.0f / (float)cnt), m2 = acc / (float)cnt;
+                if (x[i] != m1 && x[i] != m2 && !(cnt < k && x[i] == acc)) good = 0;
             }
-            if (!cnt) { ok = 0; break; }
-            float m1 = acc * (1.0f / (float)cnt), m2 = acc / (float)cnt;
-            // complete window: the float mean, by either of the two formulas that deserve the name.
-            // trailing incomplete window (cnt < k): the property only bounds their number; accept the mean or the plain sum
-            if (x[i] != m1 && x[i] != m2 && !(cnt < k && x[i] == acc)) ok = 0;
-            (void)exact;
+            if (good) { ok = 1; partial = cnt < avail; }
         }
+        r->partial = partial;
         r->payload_ok = ok;
     } else {
         int ok = 1;
@@ -196,7 +202,7 @@ static void check_acquisition(const char* how)
         int unaveragable = k > 1 && g_cam_type[cam] >= (int)SampleType_f32 && g_cam_type[cam] != (int)SampleType_u10 &&
                            g_cam_type[cam] != (int)SampleType_u12 && g_cam_type[cam] != (int)SampleType_u14;
         // records of this storage run
-        int n = 0; int bad_order = 0, bad_payload = 0, bad_shape = 0;
+        int n = 0; int bad_order = 0, bad_payload = 0, bad_shape = 0, npartial = 0, last_partial_at = -1;
         uint64_t expect_id = 0;
         for (int i = 0; i < g_nrec; ++i) {
             struct rec* r = &g_rec[i];
@@ -204,6 +210,7 @@ static void check_acquisition(const char* how)
             if (r->frame_id != expect_id) bad_order++;
             if (k == 1 && r->hw_id != r->frame_id) bad_order++;
             if (!r->payload_ok) bad_payload++;
+            if (r->partial) { ++npartial; last_partial_at = n; }
             if (k > 1 && r->type != SampleType_f32) bad_shape++;
             expect_id += (uint64_t)k;
             ++n;
@@ -212,6 +219,9 @@ static void check_acquisition(const char* how)
         if (bad_order && !unaveragable) oracle("stored-frames-out-of-order-or-gap stream=%d how=%s n=%d", s, how, n);
         if (bad_payload && !unaveragable) oracle("stored-frame-payload-differs stream=%d how=%s bad=%d", s, how, bad_payload);
         if (bad_shape) oracle("stored-frame-type-not-f32 stream=%d", s);
+        // a window cut short: one at most, the last record, and never in a run that ended normally
+        if (npartial > 1 || (npartial == 1 && (last_partial_at != n - 1 || (!strcmp(how, "stop") && !sd->failed && !cd->failed))))
+            if (!unaveragable) oracle("stored-window-cut-short stream=%d how=%s n=%d partial=%d at=%d", s, how, n, npartial, last_partial_at);
         if (!strcmp(how, "stop") && !sd->failed && !cd->failed && !unaveragable) {
             if (delivered != g_run_n[s]) oracle("camera-delivered-%lu-of-%llu stream=%d", delivered, (unsigned long long)g_run_n[s], s);
             if ((unsigned long)n < want_min || (unsigned long)n > want_max)
@@ -457,9 +467,23 @@ static void body(void* arg)
 // ------------------------------------------------------------------------------- co-simulation output
 // g_cosim: print one D/S pair per scheduler decision inside the window
 
-static void chan_digest(const struct channel* c)
+static int g_invisible; // the client is inside channel_accept_writes on a filter's queue (not part of M1's vocabulary)
+static int g_client_tid = -1;
+
+void verif_accept_writes(struct channel* ch, int v)
 {
-    printf("%zu %zu %zu %zu %d %u [", c->head, c->high, c->cycle, c->mapped, c->is_accepting_writes ? 1 : 0, c->holds.n);
+    int is_filter = 0;
+    if (g_rt)
+        for (int s = 0; s < 2; ++s)
+            if (ch == &rt()->video[s].filter.in) is_filter = 1;
+    if (is_filter) { g_invisible++; g_client_tid = detsched_self(); }
+    (channel_accept_writes)(ch, v);
+    if (is_filter) g_invisible--;
+}
+
+static void chan_digest(const struct channel* c, int hide_accept)
+{
+    printf("%zu %zu %zu %zu %d %u [", c->head, c->high, c->cycle, c->mapped, hide_accept || c->is_accepting_writes ? 1 : 0, c->holds.n);
     for (unsigned i = 0; i < c->holds.n && i < 8; ++i) printf("%s%zu:%zu", i ? " " : "", c->holds.pos[i], c->holds.cycles[i]);
     printf("]");
 }
@@ -473,8 +497,8 @@ static void state_line(void)
     printf("S");
     for (int s = 0; s < 2; ++s) {
         struct video_s* v = &r->video[s];
-        printf(" s%d: K=", s); chan_digest(&v->sink.in);
-        printf(" F="); chan_digest(&v->filter.in);
+        printf(" s%d: K=", s); chan_digest(&v->sink.in, 0);
+        printf(" F="); chan_digest(&v->filter.in, 1);
         printf(" R="); rd_digest(&v->sink.reader); printf(";"); rd_digest(&v->filter.reader); printf(";"); rd_digest(&v->monitor.reader);
         printf(" fl=%d%d%d%d%d%d", v->source.is_stopping, v->source.is_running, v->filter.is_stopping, v->filter.is_running,
                v->sink.is_stopping, v->sink.is_running);
@@ -494,6 +518,7 @@ static void on_event(void* ctx, const struct detsched_event* ev)
         printf("\n");
     }
     if (!g_cosim || !g_in_window || !g_rt) return;
+    if (g_invisible && ev->tid == g_client_tid) return;
     printf("D %d %s %s\n", ev->tid, detsched_kind_name(ev->kind), ev->label && ev->label[0] ? ev->label : "-");
     state_line();
 }
